@@ -27,3 +27,81 @@ def C13(run):
     run.assumptions += ["the C13 predicates of spec/Segments.tla (Tiles, StartIndexOK, EndIndexOK, SplitOK, MergedOK) judge "
                         "the answers OBSERVED from block.Segmenter/Range.Split/Ranges.Merged; TLC (MCSegments) checks the "
                         "reference operators satisfy the same predicates"]
+
+
+# ------------------------------------------------------------------ store family (C02 C08 C09 C10 C11)
+POLICIES = ["set", "sine", "append", "add", "min", "max", "set_sum"]
+
+
+def _mc_store(run, kind):
+    """Design-level exhaustive TLC runs of MCStore for every update policy, in parallel."""
+    from concurrent.futures import ThreadPoolExecutor
+    cfgs = ["MCStore_%s_%s.cfg" % (p, kind) for p in POLICIES]
+    w = 4 if run.tier == "quick" else 8
+    with ThreadPoolExecutor(max_workers=4 if run.tier == "quick" else 2) as ex:
+        list(ex.map(lambda c: run.model_check("MCStore", c, workers=w, timeout=3000), cfgs))
+
+
+def _store_trace(run, prefix, extra=()):
+    tr = _t(run, "store.ndjson")
+    info = run.harness("store", tr, extra=list(extra))
+    v = run.validate_sharded("TraceStore", tr)
+    run.judge(v, tr, "store", only=prefix)
+    run.cov["distinct_nontrivial"] += info["distinct_nontrivial"]
+    return tr, info
+
+
+STORE_RULE = ("store driver: for each of the 27 (policy, value type) pairs the host interface admits, chains of real "
+              "FullKV/PartialKV objects driven through wasm.Call.Do* + Flush: exhaustive small scope (every pre-content "
+              "reachable by one write, then every block of 1 op and every/sampled block of 2 ops over keys {a,ab,b}, 2 values, "
+              "ordinals {0,1}, delete_prefix {'',a,ab,b}; each followed by save->load->merge of the partial, a full snapshot "
+              "round trip, reads of every key at ordinals 0..3, operation-log replay on twin stores, undo + re-apply) plus "
+              "seeded random chains (<=12 blocks, <=16 keys, ordinals 0..4, cuts, undo/redo, save/load). "
+              "Non-trivial = block with more than one operation / cut / undo of more than one delta; distinct by content.")
+
+
+def _store_common(run, prefix, mc_kind):
+    _mc_store(run, mc_kind)
+    tr, info = _store_trace(run, prefix)
+    run.sample(tr, pick={1, 2, 3, info["records"] // 2})
+    run.cov["rule"] = STORE_RULE
+    run.assumptions += ["abstract typed values: small integers / short strings (no floating-point rounding, see DESIGN 3)",
+                        "Go projection of store bytes onto the typed value domain (parseInt/proj in harness/store.go) is trusted",
+                        "TraceStore.tla re-synchronises on the observed content after each step, so every step is judged on its own"]
+
+
+def C02(run):
+    _store_common(run, "C02:", "quick" if run.tier == "quick" else "thorough")
+
+
+def C08(run):
+    _store_common(run, "C08:", "reads")
+
+
+def C09(run):
+    _store_common(run, "C09:", "quick" if run.tier == "quick" else "thorough")
+
+
+def C11(run):
+    _store_common(run, "C11:", "quick" if run.tier == "quick" else "thorough")
+
+
+def C10(run):
+    q = run.tier == "quick"
+    run.model_check("MCSnap", "MCSnap_quick.cfg" if q else "MCSnap_thorough.cfg", workers=8)
+    # (a) dedicated snapshot driver: arbitrary binary content, 10-digit ranges, listings below every boundary
+    tr = _t(run, "snap.ndjson")
+    info = run.harness("snap", tr)
+    v = run.validate("TraceSnap", tr, xss="512m")
+    run.judge(v, tr, "snap")
+    run.sample(tr, pick={0, 3, 5, 6})
+    run.cov["distinct_nontrivial"] += info["distinct_nontrivial"]
+    # (b) every cut/saveload of the store chains is a Save->Load round trip on typed content (signatures C10:*)
+    tr2, _ = _store_trace(run, "C10:")
+    run.cov["rule"] = ("snap driver: per store directory, a full and a partial store with random binary keys/values (empty values, "
+                       "values around the 127/128 and 16383/16384 length boundaries, 0..300 entries; thousands in the thorough "
+                       "tier) saved through a real local dstore (zstd and uncompressed alternately) and loaded back; then 2..9 more "
+                       "snapshots of both kinds with ranges up to 9,999,999,999, crash debris (*.tmp as dstore's write-then-rename "
+                       "leaves it) and a foreign file, and ListSnapshotFiles(below) for every boundary b-1,b,b+1. Plus all cut / "
+                       "save-load events of the store driver. Non-trivial = more than one entry / more than one file listed.")
+    run.assumptions += ["block numbers are passed to TLC as <<hi, lo>> pairs (32-bit integers)", "content compared as hex strings"]
